@@ -12,9 +12,10 @@ Oracle: cv.ref.fixed (fractions.Fraction).  Observation levels
   P  plain Python objects on constants, outside any context      (all cells)
   T  the same call traced inside a `std.concurrent` context on constants, result
      captured by a `cohdl.pyeval` probe                          (sampled cells)
-  S  emitted VHDL simulated with the operand on a port: not available yet;
-     `render_resize_entity` / `render_binop_entity` give the design source for a cell
-     and `plan()` has a hook (`_S_SHARDS`) for the extra shard kind.
+  S  emitted VHDL (`render_resize_entity` / `render_binop_entity`, raw bits on ports) simulated with
+     cv.vhdl for ALL raw values of a deterministic sample of cells; compared with the reference and with P
+     ("div": "level_disagree", "levels": "P-S").  A design cohdl rejects is `rejected`, static errors of the
+     emitted VHDL `blocked_by_static`, engine limits `blocked`.
 
 Any exception raised by cohdl is `rejected` (never a violation); classes of cells that
 are always rejected show up in the label histogram.
@@ -34,12 +35,13 @@ _enum = builtins.enumerate  # the module contract names a function `enumerate`
 
 PROPERTY = "C19"
 TECHNIQUE = ("complete enumeration of small format/style/raw-value spaces against an exact "
-             "rational (Fraction) reference model; observation at Python level (P) and through a "
-             "traced context with a pyeval probe (T)")
+             "rational (Fraction) reference model; observation at Python level (P), through a traced context "
+             "with a pyeval probe (T) and on the simulated emitted VHDL (S)")
 RULE = (
     "case = one cell: resize (SFixed|UFixed, source [l:r], target [l:r], round style, overflow style) with ALL "
     "raw source values; binop (+,-,*) over a format pair of width<=4 with ALL raw pairs; constructor cells "
-    "(int / float / Signed[n] / Unsigned[n] / other fixed format -> format) and equality cells. "
+    "(int / float / Signed[n] / Unsigned[n] / other fixed format -> format) and equality cells; levels P (all "
+    "cells), T and S (deterministic samples, still ALL raw values per cell). "
     "Formats: -3 <= r <= l <= 4. non-trivial = cohdl produced a value for at least one point of the cell AND "
     "(resize: the target drops bits on at least one side; binop: the two formats differ; ctor: a representable "
     "number was accepted; eq: both outcomes True and False were expected); distinct = cell name"
@@ -54,7 +56,7 @@ ASSUMPTIONS = [
     "constructor from a number that lies inside the range but is not a multiple of 2**right, and equality with "
     "such a number, are not determined by the statement: counted as unspecified points, never reported",
     "any exception from cohdl (assertions included) is a rejection, never a violation",
-    "level S (simulation of emitted VHDL) is not part of this check yet",
+    "level S trusts the VHDL engine cv.vhdl; operands are driven as raw bit vectors on ports",
 ]
 EXHAUSTIVE = {"quick": False, "thorough": True}
 
